@@ -123,6 +123,7 @@ type interpreter struct {
 	MergeFails map[string]int
 	pdom  map[*ssa.Function]*pdomInfo
 	onces map[*value]bool
+	loopHdr map[*ssa.BasicBlock]bool
 }
 
 type deferred struct {
@@ -169,6 +170,22 @@ func (fr *frame) get(key ssa.Value) value {
 	panic(fmt.Sprintf("get: no value for %T: %v", key, key.Name()))
 }
 
+// outermostTarget names the outermost goalign (non-harness) function on the call stack.
+func outermostTarget(fr *frame) string {
+	name := "?"
+	for f := fr; f != nil; f = f.caller {
+		if f.fn.Pkg == nil {
+			continue
+		}
+		p := f.fn.Pkg.Pkg.Path()
+		if strings.HasPrefix(p, "github.com/evolbioinfo/goalign") && !strings.Contains(p, "zz_verif") &&
+			!strings.HasPrefix(f.fn.Name(), "H_") && !strings.HasPrefix(f.fn.Name(), "vf") && !strings.HasPrefix(f.fn.Name(), "K_") {
+			name = f.fn.String()
+		}
+	}
+	return name
+}
+
 // runDefer runs a deferred call d.
 func (fr *frame) runDefer(d *deferred) {
 	var ok bool
@@ -209,7 +226,7 @@ func visitInstr(fr *frame, instr ssa.Instruction) continuation {
 	fr.curInstr = instr
 	i.steps++
 	if i.steps > i.cfg.MaxSteps {
-		panic(pathAbort{kind: abBudget, msg: fmt.Sprintf("step budget %d exceeded%s", i.cfg.MaxSteps, i.where())})
+		panic(pathAbort{kind: abBudget, msg: fmt.Sprintf("step budget %d exceeded below %s", i.cfg.MaxSteps, outermostTarget(fr))})
 	}
 	switch instr := instr.(type) {
 	case *ssa.DebugRef:
@@ -325,16 +342,10 @@ func visitInstr(fr *frame, instr ssa.Instruction) continuation {
 		}
 
 	case *ssa.MakeSlice:
-		ln := i.needInt(fr.get(instr.Len), "make: len")
-		cp := i.needInt(fr.get(instr.Cap), "make: cap")
-		if ln < 0 {
-			panic(targetPanic{i.rtErr("makeslice: len out of range")})
-		}
+		ln := i.allocSize(fr.get(instr.Len), "make: len")
+		cp := i.allocSize(fr.get(instr.Cap), "make: cap")
 		if cp < ln {
 			panic(targetPanic{i.rtErr("makeslice: cap out of range")})
-		}
-		if cp > maxAlloc {
-			panic(targetPanic{i.rtErr(fmt.Sprintf("makeslice: len out of range (or out of memory): %d elements", cp))})
 		}
 		slice := make([]value, cp)
 		tElt := instr.Type().Underlying().(*types.Slice).Elem()
@@ -442,7 +453,40 @@ func visitInstr(fr *frame, instr ssa.Instruction) continuation {
 	return kNext
 }
 
-const maxAlloc = 1 << 22 // elements; larger allocations are reported as an out-of-memory class panic
+const (
+	maxAlloc  = 1 << 22 // elements the engine is willing to allocate
+	hugeAlloc = 1 << 28 // elements above which a Go program panics (len out of range) or dies (out of memory)
+)
+
+// allocSize resolves the size of a make(): negative or huge sizes are the Go panic / fatal
+// out-of-memory class (one representative path, constrained to that region); other symbolic
+// sizes are enumerated.
+func (i *interpreter) allocSize(v value, what string) int64 {
+	if t, ok := v.(*sym.Term); ok && !t.IsConst() {
+		w := int(t.Sort.W)
+		if i.decide(i.ctx.BvSlt(t, i.ctx.BVC(w, 0))) {
+			panic(targetPanic{i.rtErr("makeslice: len out of range")})
+		}
+		// prefer the most extreme feasible region so that the native replay shows the failure
+		for _, th := range []uint64{1 << 62, 1 << 47, hugeAlloc} {
+			if i.decide(i.ctx.BvSlt(i.ctx.BVC(w, th), t)) {
+				panic(targetPanic{i.rtErr(fmt.Sprintf("makeslice: len out of range or out of memory (size > %d elements)", th))})
+			}
+		}
+		return i.concretize(t, true, what)
+	}
+	n := asInt64(v)
+	if n < 0 {
+		panic(targetPanic{i.rtErr("makeslice: len out of range")})
+	}
+	if n > hugeAlloc {
+		panic(targetPanic{i.rtErr(fmt.Sprintf("makeslice: len out of range or out of memory (%d elements)", n))})
+	}
+	if n > maxAlloc {
+		i.unsupported(fmt.Sprintf("allocation of %d elements is beyond the engine's limit", n))
+	}
+	return n
+}
 
 // needInt demands a concrete integer (enumerating feasible values of a symbolic one).
 func (i *interpreter) needInt(v value, what string) int64 {
@@ -553,6 +597,39 @@ func (i *interpreter) indexLoadNoCheck(xs []value, it *sym.Term, t types.Type) v
 	w := int(it.Sort.W)
 	if len(xs) == 0 {
 		i.unsupported("index into empty sequence")
+	}
+	// rows of a table (slices of equal length with scalar cells): a fresh read-only row whose
+	// cells are the element-wise selections
+	if row0, ok := xs[0].([]value); ok && i.specDepth >= 0 {
+		same := true
+		for _, x := range xs {
+			r, ok := x.([]value)
+			if !ok || len(r) != len(row0) {
+				same = false
+				break
+			}
+		}
+		if same && len(row0) > 0 {
+			out := make([]value, len(row0))
+			good := true
+			for c := range row0 {
+				col := make([]value, len(xs))
+				for k := range xs {
+					col[k] = xs[k].([]value)[c]
+				}
+				switch col[0].(type) {
+				case []value, *value, *omap, structure, array, iface:
+					good = false
+				}
+				if !good {
+					break
+				}
+				out[c] = i.indexLoadNoCheck(col, it, t)
+			}
+			if good {
+				return out
+			}
+		}
 	}
 	res := copyVal(xs[len(xs)-1])
 	for k := len(xs) - 2; k >= 0; k-- {
